@@ -286,6 +286,36 @@ def param_switch(ctx, rng, dev, D2, reg, ops, changed, case) -> None:
                       f"(changed parameters {sorted((k, sorted(v)) for k, v in changed.items())}): {d[:2]}", mech, case=case)
 
 
+def tight_duration_variant(ctx, rng, dev, r):
+    """Directed: the sequence gets a last explicit delay whose length is not a multiple of the clock period the same
+    channel has on the new device, and the new device's max_sequence_duration lies within one (new) clock period above
+    the sequence's present end: after rounding, the switched sequence either still fits or has to be refused."""
+    snap = snapshot(r.seq)
+    cands = [(n, c) for n, c in snap["chans"].items() if c["detmap"] is None and c["slots"] and not c["eom"]]
+    if not cands or dev["kind"] == "builtin":
+        return None
+    n, c = gen.pick(rng, cands)
+    c1 = int(c["obj"].clock_period)
+    c2 = gen.pick(rng, [k for k in (4, 5, 8, 16, 20) if k != c1 and k > c1] or [c1 * 3])
+    mn = int(c["obj"].min_duration)
+    m = -(-max(mn, 16) // c1)
+    d = next((c1 * (m + j) for j in range(0, 40) if (c1 * (m + j)) % c2), None)
+    if d is None:
+        return None
+    if r.step({"op": "delay", "duration": d, "ch": n}).exc is not None:
+        return None
+    end = int(r.seq.get_duration())
+    dev2 = copy.deepcopy(dev)
+    for ch in dev2.get("channels", []):
+        if ch["id"] == c["id"]:
+            ch["clock_period"] = c2
+            if ch.get("min_duration", 1) % 1:
+                return None
+    dev2["max_sequence_duration"] = end + rng.randrange(0, c2)
+    ctx.count("tight_max_sequence_duration_variants")
+    return dev2, {c["id"]: {"clock_period"}}
+
+
 def run_case(ctx, idx, rng, tier):
     dev = gen.gen_device(rng, p_builtin=0.0, p_physical=0.25, xy=rng.random() < 0.1, max_seq=0.1, want_eom=0.6)
     for c in dev.get("channels", []):
@@ -297,7 +327,13 @@ def run_case(ctx, idx, rng, tier):
     if ops is None:
         ctx.count("discarded_after_C09")
         return
-    if rng.random() < 0.3:
+    tight = None
+    if idx % 8 == 5:
+        tight = tight_duration_variant(ctx, rng, dev, r)
+    if tight is not None:
+        dev2, changed = tight
+        ops = r.prog["ops"]
+    elif rng.random() < 0.3:
         dev2, changed = perturb_one(rng, dev, {c["id"] for c in snapshot(r.seq)["chans"].values()})
         ctx.count("single_parameter_perturbations")
     else:
